@@ -22,8 +22,6 @@ theorem pin_frame_Writer_Write : Gen.src_frame_Writer_Write = Expect.src_frame_W
 theorem pin_frame_Writer_writeFrameInner : Gen.src_frame_Writer_writeFrameInner = Expect.src_frame_Writer_writeFrameInner := rfl
 theorem pin_frame_Writer_WriteFrame : Gen.src_frame_Writer_WriteFrame = Expect.src_frame_Writer_WriteFrame := rfl
 theorem pin_frame_NewWriter : Gen.src_frame_NewWriter = Expect.src_frame_NewWriter := rfl
-theorem pin_frame_hasEmptyBytes : Gen.src_frame_hasEmptyBytes = Expect.src_frame_hasEmptyBytes := rfl
-theorem pin_frame_removeEmptyBytes : Gen.src_frame_removeEmptyBytes = Expect.src_frame_removeEmptyBytes := rfl
 theorem pin_message_removeEmptyBytes : Gen.src_message_removeEmptyBytes = Expect.src_message_removeEmptyBytes := rfl
 theorem pin_message_fieldGoToDef : Gen.src_message_fieldGoToDef = Expect.src_message_fieldGoToDef := rfl
 theorem pin_message_msgGoToDef : Gen.src_message_msgGoToDef = Expect.src_message_msgGoToDef := rfl
